@@ -36,6 +36,8 @@ func Gen(seed uint64, profile string) *Scenario {
 		sc.Dst = "/w/dst/"
 	case 1:
 		sc.Dst = "/w/deep/er/dst"
+	case 2:
+		sc.Dst = "/w/alias/dst"
 	default:
 		sc.Dst = "/w/dst"
 	}
